@@ -952,7 +952,7 @@ package base
 //@     after anyfail := anyfail || t_anyfail
 //@   oncall go $4
 //@     after anyfail := anyfail || t_anyfail
-//@   ensures [C18] errpolicy: (result.1 != nil) <==> anyfail
+//@   ensures [C18,C09] errpolicy: (result.1 != nil) <==> anyfail
 //@   ensures [C18] nothing: len(cs.Assignments) + len(cs.FunctionCalls) + len(cs.MethodCalls) + len(cs.ThreeLevelCalls) == 0 ==> result.1 == nil && !anyfail
 //@   modifies frame evalframe
 //@   nopanic
